@@ -73,8 +73,10 @@ def mask_option(dump, name):
     return dump[:i] + key + '*' + dump[k + 1:]
 
 
-def evaluate(sch, words, cb_fail, ctxflags=0):
+def evaluate(sch, words, cb_fail, ctxflags=0, pre=None):
     st = new_store(sch, ctxflags)
+    if pre:
+        RefParser(ctxflags).parse(st, tokens_from_words(pre))     # instances that exist before the callbacks are registered
     p = RefParser(ctxflags, cb_fail=cb_fail)
     res = p.parse(st, tokens_from_words(words))
     return res, st, p
@@ -85,7 +87,9 @@ def shard(sh):
     drv = get_driver('asan')
     st = ShardStats('E1 N=%d x failing invocation' % N)
     bypath = N >= 100       # validation callbacks registered with cfg_set_validate_func by schema path instead of in the declarations
+    late = N >= 200         # ... after a first parse has already created an instance of the multi section
     N = N % 100
+    pre = ['s', '{', '}'] if late else None
     VBITS = {1: b'a', 3: b'l', 4: b's', 6: b's|x'}
     for mask in masks:
         ctxflags = 0
@@ -102,7 +106,7 @@ def shard(sh):
         elif bypath:
             decl = variant(mask & ~sum(1 << b for b in VBITS))
             decl = Schema('G%d' % mask, decl.opts)
-            reg = ['set_vf A %s 1' % enc(path) for bit, path in sorted(VBITS.items()) if mask >> bit & 1]
+            reg = (['parse_buf A ' + enc(b's { }')] if late else []) + ['set_vf A %s 1' % enc(path) for bit, path in sorted(VBITS.items()) if mask >> bit & 1]
         else:
             decl, reg = sch, []
         if not isinstance(mask, tuple):
@@ -119,9 +123,10 @@ def shard(sh):
                 if r.status in ('crash', 'hang'):
                     st.violation('%s:%s' % (r.status, engine.sanitizer_summary(r.info)), script, '', engine.excerpt(r.info))
                     continue
-                k0 = next((j for j, l in enumerate(r.lines) if l.startswith('r init')), -1)
+                k0 = max([j for j, l in enumerate(r.lines) if l.startswith('r init') or l.startswith('r set_vf')] or [-1])
                 log = collapse([l for l in r.lines[k0 + 1:] if l.startswith('cb ') and not l.startswith('cb r ')])   # releases of pointer values are C07's business   # defaults are converted (and logged) inside cfg_init
-                rc = r.first('r parse_buf')
+                rcs = r.all('r parse_buf')
+                rc = rcs[-1] if rcs else None
                 dump = r.first('dump ')
                 st.outcome('%s %s' % (rc, ' '.join(log)))
                 if res.verdict == UNSPEC:
@@ -156,11 +161,11 @@ def shard(sh):
         for prefix in prefixes:
             for node in trace.e1(sch, ctxflags, alpha, N, prefix):
                 words = node.words
-                res0, store0, par0 = evaluate(sch, words, 0, ctxflags)
+                res0, store0, par0 = evaluate(sch, words, 0, ctxflags, pre)
                 K = par0.cb_seen
                 batch.append((words, 0, res0, store0, par0))
                 for k in range(1, K + 1):
-                    res, store, par = evaluate(sch, words, k, ctxflags)
+                    res, store, par = evaluate(sch, words, k, ctxflags, pre)
                     batch.append((words, k, res, store, par))
                 if len(batch) >= 300:
                     flush()
@@ -263,6 +268,14 @@ def main():
         for ch in engine.chunks(frontier, 12):
             shards.append((masks, 100 + Nb, ch, dl))
     engine.phase(ck, 'E1 N=%d with validation callbacks registered by schema path (cfg_set_validate_func)' % Nb, shard, shards, subsets=len(vmasks))
+    shards = []
+    smasks = [m for m in range(128) if m & 0b1010000 and not m & 0b0100101]      # validation slots only, the section or its child among them
+    Nl = 6 if quick else 7
+    for masks in engine.chunks(smasks, 1):
+        shards.append((masks, 200, inner, dl))
+        for ch in engine.chunks(frontier, 6):
+            shards.append((masks, 200 + Nl, ch, dl))
+    engine.phase(ck, 'E1 N=%d, registration by path after an instance of the multi section exists' % Nl, shard, shards, subsets=len(smasks))
     # other option kinds with parse callbacks, a single section addressed by path, case-insensitive registration
     from model import CFGF
     K = lambda cbf, cbb, cbt, cbtl, cby, sid: Schema(sid, [Opt('float', 'f', '', 1.5, cbf), Opt('bool', 'b', '', False, cbb), Opt('str', 't', '', b'd', cbt),
